@@ -221,6 +221,39 @@ pub fn run() -> i32 {
             }
         }
     });
+    // the constructors of the object API under an Argon2i Config (only obtainable from a parsed
+    // Argon2i string): the string they emit must name the algorithm that produced the hash
+    {
+        let mut st2 = Stats::new();
+        let (_, _, s_i) = sodium::argon2_raw(3, 8, b"seed pw", &[7u8; 16], 32, 1, true);
+        let r = guarded(AssertUnwindSafe(|| -> Vec<(&'static str, bool)> {
+            let cfg_i: Config = PwHash::<Vec<u8>, Vec<u8>>::from_string(&s_i).unwrap().into_parts().2;
+            let mut v = vec![];
+            let a: PwHash<Vec<u8>, Vec<u8>> = PwHash::hash(&b"pw".to_vec(), cfg_i.clone()).unwrap();
+            let b: PwHash<Vec<u8>, Vec<u8>> = PwHash::hash_with_salt(&b"pw".to_vec(), vec![9u8; 16], cfg_i.clone()).unwrap();
+            for (name, o) in [("PwHash::hash", a), ("PwHash::hash_with_salt", b)] {
+                let s = o.to_string();
+                let p = parse(&s);
+                let (h, sa, _) = o.clone().into_parts();
+                let want = p.as_ref().map(|p| sodium::argon2_raw(p.t, p.m, b"pw", &sa, h.len(), if p.alg == "argon2i" { 1 } else { 2 }, false).1);
+                let ok = p.as_ref().map(|p| p.alg == "argon2i").unwrap_or(false) && want.as_ref() == Some(&h) && o.verify(&b"pw".to_vec()).is_ok() && sodium::pwhash_str_verify(&s, b"pw") && PwHash::<Vec<u8>, Vec<u8>>::from_string(&s).map(|x| x.verify(&b"pw".to_vec()).is_ok()).unwrap_or(false);
+                v.push((name, ok));
+            }
+            v
+        }));
+        match r {
+            Ok(v) => {
+                for (name, ok) in v {
+                    st2.eval(&("argon2i-config", name), true, if ok { "PwHash-roundtrip-ok" } else { "PwHash-roundtrip-bad" });
+                    if !ok {
+                        fail(&mut st2, "object-roundtrip", "argon2i-config", format!("{} under an Argon2i Config: the emitted string does not describe the hash (algorithm / verify / libsodium)", name), json!({"sec": "none"}));
+                    }
+                }
+            }
+            Err(p) => fail(&mut st2, "object-roundtrip", "panic", format!("object API under an Argon2i Config panicked: {}", p), json!({"sec": "none"})),
+        }
+        ctx.absorb("argon2i-config-constructors", st2);
+    }
     ctx.note("section_c_dims", json!({"salt_lengths": sls.len(), "hash_lengths": hls.len()}));
     ctx.absorb("parse-reencode", st);
 
